@@ -61,16 +61,39 @@ func main() {
 	api.DisableConfigDir()
 	f := os.Args[1]
 	b, _ := os.ReadFile(f)
+	if strings.HasPrefix(f, "gen:") {
+		var n int
+		fmt.Sscanf(f, "gen:%d", &n)
+		b = genXRefStreamDoc(n)
+		os.WriteFile("/tmp/C10-scratch/gen.pdf", b, 0o644)
+	}
 	conf := model.NewDefaultConfiguration()
 	if len(os.Args) > 2 && os.Args[2] == "strict" {
 		conf.ValidationMode = model.ValidationStrict
 	}
-	c := &cctx{Context: context.Background(), k: -1}
+	c := &cctx{Context: context.Background(), k: -1, rec: os.Getenv("SITES") != ""}
 	_, err := pdfcpu.ReadWithContext(c, bytes.NewReader(b), conf)
 	total := c.n
+	if c.rec {
+		m := map[string]int{}
+		for _, s := range c.sites {
+			m[s]++
+		}
+		for s, n := range m {
+			fmt.Println("SITE", n, s)
+		}
+		return
+	}
 	fmt.Println("total", total, err)
 	maxExtra := 0
-	for k := 0; k <= total; k++ {
+	kmax := total
+	if kmax > 40 {
+		kmax = 40
+	}
+	t0 := time.Now()
+	pdfcpu.ReadWithContext(context.Background(), bytes.NewReader(b), conf)
+	fmt.Println("full read", time.Since(t0))
+	for k := 0; k <= kmax; k++ {
 		c := &cctx{Context: context.Background(), k: k, rec: true}
 		ctx, err := pdfcpu.ReadWithContext(c, bytes.NewReader(b), conf)
 		el := time.Since(c.flipT)
@@ -88,4 +111,35 @@ func main() {
 		}
 	}
 	fmt.Println("maxExtra", maxExtra)
+}
+
+// genXRefStreamDoc builds a PDF with n filler objects (uncompressed) and an uncompressed xref stream.
+func genXRefStreamDoc(n int) []byte {
+	var w bytes.Buffer
+	w.WriteString("%PDF-1.7\n%\xe2\xe3\xcf\xd3\n")
+	offs := []int{0}
+	obj := func(body string) {
+		offs = append(offs, w.Len())
+		fmt.Fprintf(&w, "%d 0 obj\n%s\nendobj\n", len(offs)-1, body)
+	}
+	obj("<</Type/Catalog/Pages 2 0 R>>")
+	obj("<</Type/Pages/Kids[3 0 R]/Count 1>>")
+	obj("<</Type/Page/Parent 2 0 R/MediaBox[0 0 200 200]>>")
+	for i := 0; i < n; i++ {
+		obj(fmt.Sprintf("<</K %d/V(filler)>>", i))
+	}
+	xoff := w.Len()
+	nr := len(offs)
+	var data bytes.Buffer
+	data.Write([]byte{0, 0, 0, 0, 0, 0xff, 0xff})
+	for i := 1; i < nr; i++ {
+		o := offs[i]
+		data.Write([]byte{1, byte(o >> 24), byte(o >> 16), byte(o >> 8), byte(o), 0, 0})
+	}
+	data.Write([]byte{1, byte(xoff >> 24), byte(xoff >> 16), byte(xoff >> 8), byte(xoff), 0, 0})
+	fmt.Fprintf(&w, "%d 0 obj\n<</Type/XRef/Size %d/W[1 4 2]/Root 1 0 R/Length %d>>\nstream\n", nr, nr+1, data.Len())
+	w.Write(data.Bytes())
+	w.WriteString("\nendstream\nendobj\nstartxref\n")
+	fmt.Fprintf(&w, "%d\n%%%%EOF\n", xoff)
+	return w.Bytes()
 }
